@@ -51,7 +51,7 @@ func c17Script(c *Ctx, track bool, gen string) Case {
 			default:
 				nn := cur
 				if r.P(1, 3) {
-					nn = r.Pick("Guest123", cur+"_", "me")
+					nn = r.Pick("Guest123", cur+"_", "me", "42XAAAAAB", "ni\xc3\xa9ck") // a TS6 server hands out the UID when it must; not every network keeps to RFC 2812's nick grammar
 				}
 				if r.P(1, 3) {
 					evs = append(evs, nsEvent{"001nomask " + drv.H(nn), "001(no mask) " + nn})
@@ -64,7 +64,7 @@ func c17Script(c *Ctx, track bool, gen string) Case {
 		}
 		switch r.N(5) {
 		case 0, 1:
-			nn := r.Pick("newnick", cur+"_", "me", "Guest1", strings.ToUpper(cur))
+			nn := r.Pick("newnick", cur+"_", "me", "Guest1", strings.ToUpper(cur), "7ABAAAAAC", "0day", "-dash", "n{}|`^[]\\", "\xe5\x90\x8d\xe5\x89\x8d")
 			if nn == cur {
 				nn = cur + "x"
 			}
